@@ -146,6 +146,18 @@ impl LibraryRenderer {
         Ok(())
     }
 
+    /// Writes the initial values of an array: a bracketed, comma separated
+    /// list.
+    fn visit_array_initial_elements(
+        &mut self,
+        elements: &[ArrayInitialElementKind],
+    ) -> Result<(), Diagnostic> {
+        self.write_ws("[");
+        visit_comma_separated!(self, elements.iter(), ArrayInitialElementKind);
+        self.write_ws("]");
+        Ok(())
+    }
+
     /// Writes the steps before or after a transition: a single step name, or
     /// a parenthesized list of two or more step names.
     fn visit_transition_steps(&mut self, steps: &[Id]) -> Result<(), Diagnostic> {
@@ -485,6 +497,11 @@ impl Visitor<Diagnostic> for LibraryRenderer {
 
         self.visit_array_specification_kind(&node.spec)?;
 
+        if !node.init.is_empty() {
+            self.write_ws(":=");
+            self.visit_array_initial_elements(&node.init)?;
+        }
+
         Ok(())
     }
 
@@ -789,6 +806,28 @@ impl Visitor<Diagnostic> for LibraryRenderer {
         }
 
         Ok(())
+    }
+
+    // 2.3.3.1
+    fn visit_struct_initial_value_assignment_kind(
+        &mut self,
+        node: &StructInitialValueAssignmentKind,
+    ) -> Result<Self::Value, Diagnostic> {
+        match node {
+            StructInitialValueAssignmentKind::Constant(node) => self.visit_constant_kind(node),
+            StructInitialValueAssignmentKind::EnumeratedValue(node) => {
+                self.visit_enumerated_value(node)
+            }
+            StructInitialValueAssignmentKind::Array(elements) => {
+                self.visit_array_initial_elements(elements)
+            }
+            StructInitialValueAssignmentKind::Structure(elements) => {
+                self.write_ws("(");
+                visit_comma_separated!(self, elements.iter(), StructureElementInit);
+                self.write_ws(")");
+                Ok(())
+            }
+        }
     }
 
     fn visit_enumerated_initial_value_assignment(
